@@ -212,7 +212,67 @@ def _scopes(tree: nodes.Template) -> Iterator[tuple[str, list[nodes.Node]]]:
         yield m.name, m.body
 
 
-def sites(name: str, tree: nodes.Template) -> list[Site]:
+def _root(e: nodes.Node) -> nodes.Node:
+    while isinstance(e, (nodes.Getattr, nodes.Getitem, nodes.Call, nodes.Filter)) and e.node is not None:
+        e = e.node
+    return e
+
+
+def _evaluated(tree: nodes.Template) -> list[tuple[str, nodes.Node, tuple[Guard, ...], tuple[str, ...]]]:
+    """(macro, sub-expression, conditions, loops) for everything the template evaluates"""
+    return [(macro, e, g, loops) for macro, body in _scopes(tree) for top, guards, loops in _statements(body, (), ())
+            for e, g in _subexprs(top, guards)]
+
+
+def _at_call_sites(trees: dict[str, nodes.Template], evaluated: dict[str, list], macro: nodes.Macro, coll: nodes.Node, need: int, depth: int = 2) -> bool:
+    """the collection is (part of) an argument of the macro: it is known to hold the element when it does at every call of the macro
+    (the argument put in the parameter's place, the conditions of the call site) - and there is such a call"""
+    import copy
+
+    params = [a.name for a in macro.args]
+    root = _root(coll)
+    if not (isinstance(root, nodes.Name) and root.name in params):
+        return False
+    i = params.index(root.name)
+    calls = 0
+    for tname, evs in evaluated.items():
+        for cm, e, g, loops in evs:
+            if not (isinstance(e, nodes.Call) and ((isinstance(e.node, nodes.Name) and e.node.name == macro.name) or
+                                                   (isinstance(e.node, nodes.Getattr) and e.node.attr == macro.name))):
+                continue
+            calls += 1
+            arg = next((k.value for k in e.kwargs if k.key == root.name), e.args[i] if i < len(e.args) else None)
+            if arg is None or e.dyn_args is not None or e.dyn_kwargs is not None:
+                return False
+            c2 = copy.deepcopy(coll)
+            if _root(c2) is c2:
+                c2 = arg
+            else:
+                parent = c2
+                while parent.node is not _root(c2):
+                    parent = parent.node
+                parent.node = arg
+            if _known_to_hold(c2, need, g, loops):
+                continue
+            outer = next((m for m in trees[tname].find_all(nodes.Macro) if m.name == cm), None) if cm != "<top>" else None
+            if outer is None or depth <= 0 or not _at_call_sites(trees, evaluated, outer, c2, need, depth - 1):
+                return False
+    return calls > 0
+
+
+def sites_of(trees: dict[str, nodes.Template]) -> list[Site]:
+    evaluated = {name: _evaluated(tree) for name, tree in trees.items()}
+    out: list[Site] = []
+    for name, tree in trees.items():
+        macros = {m.name: m for m in tree.find_all(nodes.Macro)}
+        for st in sites(name, tree, evaluated[name]):
+            if not st.ok and st.macro in macros:
+                st.ok = _at_call_sites(trees, evaluated, macros[st.macro], st.coll, st.need)
+            out.append(st)
+    return out
+
+
+def sites(name: str, tree: nodes.Template, evaluated: list | None = None) -> list[Site]:
     """the dereferences of picked elements in one template, each with whether the collection is known to hold the element there"""
     # where each template-bound variable is defined, and under what (canonical names: the definitions of one name are one variable)
     defs: dict[str, list[tuple[nodes.Node, tuple[Guard, ...], tuple[str, ...]]]] = {}
@@ -247,9 +307,9 @@ def sites(name: str, tree: nodes.Template) -> list[Site]:
         collect(body, (), ())
 
     out: list[Site] = []
-    for macro, body in _scopes(tree):
-        for top, guards, loops in _statements(body, (), ()):
-            for e, g in _subexprs(top, guards):
+    for macro, e, g, loops in (evaluated if evaluated is not None else _evaluated(tree)):
+        if True:
+            if True:
                 base = e.node if isinstance(e, (nodes.Getattr, nodes.Getitem, nodes.Call)) else None
                 if base is None:
                     continue
@@ -277,17 +337,21 @@ CONTROL = (
     "{% for u in us %}{{ (us | first).name }}{% endfor %}"                            # inside a loop over it
     "{{ (ts | first).name if ts else '' }}"                                           # inline-if
     "{% if rs | length > 0 %}{{ rs[1].name }}{% endif %}"                             # one element known, two needed
+    "{% macro m(ps) %}{{ ps[0].name }}{% endmacro %}{% if qs %}{{ m(qs) }}{% endif %}"   # guarded where the macro is called
+    "{% macro k(ps) %}{{ ps[0].name }}{% endmacro %}{{ k(os) }}"                       # ... and not
 )
 
 
 def control() -> bool:
-    """positive control: the synthetic template above has exactly four unguarded dereferences (xs, ys, zs, rs[1])"""
+    """positive control: the synthetic template above has exactly five unguarded dereferences (xs, ys, zs, rs[1], ps in k)"""
     from jinja2 import Environment
 
     from ..jinja_canon import canonicalise
 
     tree = Environment().parse(CONTROL)
     canonicalise(tree)
-    got = sorted(expr_text(s.coll) for s in sites("<control>", tree) if not s.ok)
-    safe = sorted(expr_text(s.coll) for s in sites("<control>", tree) if s.ok)
-    return got == ["rs", "xs", "ys", "zs"] and safe == ["ts", "us", "vs", "vs", "ws.values()"]
+    found = sites_of({"<control>": tree})
+    got = sorted(f"{s.macro}:{expr_text(s.coll)}" for s in found if not s.ok)
+    safe = sorted(f"{s.macro}:{expr_text(s.coll)}" for s in found if s.ok)
+    return got == ["<top>:rs", "<top>:xs", "<top>:ys", "<top>:zs", "k:ps"] and \
+        safe == ["<top>:ts", "<top>:us", "<top>:vs", "<top>:vs", "<top>:ws.values()", "m:ps"]
